@@ -8,7 +8,8 @@ import json, os, subprocess, sys, shutil
 sid = sys.argv[1]
 keep = "--keep" in sys.argv
 checks = [a for a in sys.argv[2:] if not a.startswith("--")] or [sid[:3]]
-wt, out = "/tmp/seed/" + sid, "/tmp/seed/out/" + sid
+base = os.environ.get("SEED_BASE", "/tmp/seed")
+wt, out = base + "/" + sid, base + "/out/" + sid
 env = dict(os.environ, GOFLAGS="-mod=mod", GOPROXY="off", GOSUMDB="off", GOTOOLCHAIN="local")
 meta = json.load(open(out + "/meta.json"))
 def sh(cmd, **kw):
@@ -26,7 +27,10 @@ res["baseline"] = bc.stdout.strip().splitlines()[0] if bc.stdout.strip() else "?
 res["baseline_ok"] = bc.returncode == 0
 import re
 demo = meta.get("demo_run", "")
-demo = re.split(r"\s+--\s+(?=[Ee]xpect)|\s{2,}--\s|\s+#\s|\.\s+(?=Expected)|\s+\(expected|\s+=> ", demo)[0]
+if meta.get("demo_cmd"):
+    demo = meta["demo_cmd"] if isinstance(meta["demo_cmd"], str) else " && ".join(meta["demo_cmd"])
+else:
+    demo = re.split(r"\s+--\s+(?=[Ee]xpect)|\s{2,}--\s|\s+#\s|\.\s+(?=Expected)|\s+\(expected|\s+=> ", demo)[0]
 if os.path.exists(out + "/demo_cmd.sh"):
     demo = "bash " + out + "/demo_cmd.sh"
 res["demo_cmd"] = demo
